@@ -223,6 +223,10 @@ def run_cc(ctx, name, corpus, only):
             parts[k]["n_dis"] = len(parts[k]["dis"])
             parts[k]["dis"] = parts[k]["dis"][:10]
         gen_stats = json.load(open(os.path.join(wd, "gen_stats.json")))
+        try:
+            gen_stats.update(json.load(open(os.path.join(wd, "style_stats.json"))))
+        except Exception:
+            pass
         samples = [f"{n}: {s}" for n, s in progs[len(progs) // 2: len(progs) // 2 + 3]]
         # free the scratch module (it can be large)
         sh(["rm", "-rf", os.path.join(wd, "mod")])
